@@ -245,7 +245,8 @@ func runProperty(P *Program, pf *PropFile, findings *FindingsFile, timeout int, 
 					}
 				}
 				if len(failing) == 0 {
-					if cross {
+					if cross && !dep {
+						// the agreement matrix is computed for the functions the property names
 						fr.res = solveAll(g, dir, timeout, true, selected, 5)
 					} else {
 						for _, r := range all {
@@ -257,7 +258,7 @@ func runProperty(P *Program, pf *PropFile, findings *FindingsFile, timeout int, 
 				} else {
 					// round 2: this property's obligations, with the failed ones asserted but not assumed
 					fr.poisoned = len(failing)
-					fr.res = solveAllNA(g, dir, timeout, cross, selected, 5, failing)
+					fr.res = solveAllNA(g, dir, timeout, cross && !dep, selected, 5, failing)
 				}
 				fr.secs = time.Since(t0).Seconds()
 			}(i, key)
